@@ -201,7 +201,7 @@ def spec_resurrect(row):
             if post["colour"] == "B" and row.pre["nt"] == 1:
                 probs.append("resurrected tracing object blackened without queueing: its closure is not marked")
             if not (list(out.post["gray"]) + list(out.post["gray_again"])):
-                probs.append("reviving a dead object leaves no pending mark work: the arena keeps reporting "
+                probs.append("[reporting] reviving a dead object leaves no pending mark work: the arena keeps reporting "
                              "Marked instead of Marking")
         if ("ctx", "root_needs_trace") in diff(row, out):
             probs.append("root flag changed")
